@@ -624,7 +624,19 @@ def _columns(repo, col, R):
     ok = False
     if spt is not None and spt.op == "bool" and spt.name == "And" and len(spt.args) == 2:
         def side(q, k, op):
-            if not (q.op == "cmp" and q.name == op and len(q.args) == 2):
+            # bool(...) around a comparison and `not (a == b)` for `a != b` are the same test
+            flip = {"==": "!=", "!=": "=="}
+            neg_ = False
+            while True:
+                if q.op == "call" and q.name in ("bool",) and len(q.args) == 1:
+                    q = q.args[0]
+                elif q.op == "not" or (q.op == "unary" and q.name == "Not"):
+                    neg_, q = not neg_, q.args[0]
+                else:
+                    break
+            if not (q.op == "cmp" and q.name in flip and len(q.args) == 2):
+                return False
+            if (flip[q.name] if neg_ else q.name) != op:
                 return False
             a, b = q.args
             if b.op != "const":
